@@ -11,6 +11,8 @@
       main     DoitMain.run -> DoitCmdBase.execute  (INI file or API config, DOIT_CONFIG -> update_defaults, exit code)
                also API dict + pyproject.toml + doit.cfg at once (layers merged per key), the same extra_config object
                given to an earlier DoitMain that saw other files; the caller's dict must stay unchanged
+               also: the probe command and a DB backend registered as PLUGINS in the same config source ([COMMAND] /
+               [BACKEND], tool.doit.plugins.*), `backend` resolved through the layers and read off the class instantiated
       premain  DoitMain.run with a loader that has options of its own (with env_var), some written in front of the
                command name (`doit -f x -k vcmd ...` -> opt_vals -> params.update); observed where loader.setup
                receives the parameters and after DOIT_CONFIG
@@ -116,7 +118,19 @@ def _sig_empty_word_crash(w):
             and res.get('err') == 'crash' and 'IndexError' in str(res.get('exc')))
 
 
+def _sig_backend_choice_from_config(w):
+    """F-C16e: a config section / DOIT_CONFIG names a `backend` that does not exist and doit died with the TypeError"""
+    case = w.get('case') or {}
+    res = (w.get('impl') or {}).get('res') or {}
+    known = set(optlib.BACKEND_CLASS) if case.get('plugins') else set(optlib.BACKEND_CLASS) - {'vmem'}
+    named = [c_.get('raw', c_.get('val')) for fld in ('ini', 'glob') for k, c_ in case.get(fld) or [] if k == 'backend'] + \
+            [v for k, v in case.get('dodo') or [] if k == 'backend']
+    return (case.get('path') == 'main' and any(v not in known for v in named)
+            and res.get('err') == 'crash' and "'NoneType' object is not callable" in str(res.get('exc')))
+
+
 SIGNATURES = {'var-word-steals-option-value': _sig_var_word_steals_option_value,
+              'backend-choice-from-config-unchecked': _sig_backend_choice_from_config,
               'empty-word-crash': _sig_empty_word_crash}
 
 PATHS = ['parse', 'parse', 'command', 'main', 'premain', 'task', 'runtask', 'creator']
@@ -218,6 +232,48 @@ def gen_case(rng, base, path=None):
                 for fs in (case.get('files') or {}).values():
                     if fs is not None:
                         fs['ini'] = [e for e in fs['ini'] if e[0] != bad]
+    if path == 'main' and rng.random() < 0.25 and not case['malformed']:
+        # wave 4 #12: plugin sections ([COMMAND] / [BACKEND], tool.doit.plugins.*) in the same config source; the
+        # `backend` option (a base option of every DoitCmdBase command) set through the layers, one value is the plugin
+        case['plugins'] = True
+        case['spec'] = [dict(o) for o in case['spec']]
+        for o in case['spec'][:case['n_base']]:
+            if o['name'] == 'backend':
+                o['choices'] = list(o['choices']) + ['vmem']
+        pick = lambda: rng.choice(['vmem', 'vmem', 'json', 'sqlite3', 'dbm'])      # noqa: E731
+        if rng.random() < 0.4:
+            case['glob'] = case['glob'] + [['backend', {'raw': pick()}]]
+        if rng.random() < 0.4:
+            case['ini'] = case['ini'] + [['backend', {'raw': pick()}]]
+        if rng.random() < 0.4:
+            case['dodo'] = case['dodo'] + [['backend', pick()]]
+        if rng.random() < 0.4 and case['asgs'] is not None:
+            case['asgs'] = case['asgs'] + [[rng.choice(['lEq', 'lDet']), 'backend', pick()]]
+            case['argv'] = optlib.render(case['asgs'], case['sep'], case['pos'])
+        if rng.random() < 0.1:
+            # a backend name that does not exist: config section, DOIT_CONFIG or command line
+            where = rng.choice(['glob', 'ini', 'dodo', 'argv'])
+            case['malformed'] = 'bad-choice-backend-' + where
+            if where == 'argv':
+                case['argv'] = ['--backend', 'nosuch'] + list(case['argv'])
+            elif where == 'dodo':
+                case['dodo'] = [e for e in case['dodo'] if e[0] != 'backend'] + [['backend', 'nosuch']]
+                case['asgs'] = [a for a in (case['asgs'] or []) if a[1] != 'backend'] if case['asgs'] is not None else None
+                if case['asgs'] is not None:
+                    case['argv'] = optlib.render(case['asgs'], case['sep'], case['pos'])
+            else:
+                # nothing of higher precedence names a backend (else the unknown name is silently overridden)
+                case['dodo'] = [e for e in case['dodo'] if e[0] != 'backend']
+                if case['asgs'] is not None:
+                    case['asgs'] = [a for a in case['asgs'] if a[1] != 'backend']
+                    case['argv'] = optlib.render(case['asgs'], case['sep'], case['pos'])
+                case[where] = [e for e in case[where] if e[0] != 'backend'] + [['backend', {'raw': 'nosuch'}]]
+                if where == 'glob':
+                    case['ini'] = [e for e in case['ini'] if e[0] != 'backend']
+                for fs in (case.get('files') or {}).values():
+                    if fs is not None:
+                        fs['ini'] = [e for e in fs['ini'] if e[0] != 'backend']
+                        fs['glob'] = [e for e in fs['glob'] if e[0] != 'backend']
     if path in ('parse', 'command', 'main') and (rng.random() < 0.35 or case.get('want_prev')):
         # history: another command line handled first by the same parser / command object / process
         prev = optlib.render(optlib.gen_asgs(rng, gen_opts, n=rng.randint(1, 4), good_p=0.95), False, [])
@@ -416,7 +472,11 @@ def judge(case, impl, model, spec):
         return viol, div            # the tokens in front of the command name do not parse as loader options: not generated
     loader_names = set(o['name'] for o in case.get('lspec') or [])
     # ---- (K)
-    if not same_result(r1, model['res'], case):
+    late_choices = str(case.get('malformed') or '').startswith('bad-choice-backend') and \
+        'err' in (r1 or {}) and 'err' in model['res']
+    # (an unknown backend name in a config source: doit attaches the choices of `backend` after overwrite_defaults and
+    #  never validates DOIT_CONFIG -- F-C16e; the model has the choices from the start: only "is an error" is compared)
+    if not late_choices and not same_result(r1, model['res'], case):
         div.append('M4/%s: result differs: impl %s model %s' % (path, canon(res_key(r1))[:300],
                                                                canon(res_key(model['res']))[:300]))
     if path == 'premain' and 'ok' in (r1 or {}) and not same_result(impl.get('setup'), model.get('setup'), case):
@@ -499,6 +559,18 @@ def judge(case, impl, model, spec):
                     break
             if path != 'creator' and r1['ok']['pos'] != exp['pos']:
                 viol.append(('roundtrip', 'positional arguments changed: got %s expected %s' % (r1['ok']['pos'], exp['pos'])))
+    # ---- plugins: the DB backend the command instantiated is the one the resolved `backend` option names
+    if case.get('plugins') and 'ok' in (r1 or {}) and impl.get('backend_seen'):
+        if 'ok' in model['res']:
+            want = optlib.BACKEND_CLASS.get(dict(model['res']['ok']['vals']).get('backend'))
+            if want != impl['backend_seen']:
+                div.append('M4/main: backend %s instantiated, the model resolves to %s' % (impl['backend_seen'], want))
+        if spec is not None and not case.get('malformed') and not case.get('abbrev') and wf and spec['hyp_ok'] \
+                and 'vals' in spec['expect']:
+            want = optlib.BACKEND_CLASS.get(dict(spec['expect']['vals']).get('backend'))
+            if want != impl['backend_seen']:
+                viol.append(('precedence', 'DB backend %s was instantiated, the property resolves `backend` to %r (%s)'
+                             % (impl['backend_seen'], dict(spec['expect']['vals']).get('backend'), want)))
     # ---- (P) loader options: written in front of the command name, or resolved by precedence, as loader.setup sees them
     aux = model.get('_aux') or {}
     if (path == 'premain' and aux and spec is not None and not case.get('malformed') and wf and spec['hyp_ok']
@@ -745,6 +817,10 @@ def account(st, case, impl, model, spec):
             srcs = ''.join(t for t, lst in (('G', case['glob']), ('S', case['ini']), ('D', case['dodo'])) if any(e[0] == o for e in lst))
             onc = any(o_name in json.dumps(case['asgs']) for o_name in {'continue': ['"c"', 'continue'], 'verbosity': ['"v"', 'verbosity'], 'num_process': ['"n"', 'process']}[o])
             st.count('realrun:%s-sources=%s%s' % (o, srcs or '-', '+argv' if onc else ''))
+    if str(case.get('malformed') or '').startswith('bad-choice-backend'):
+        st.count('plugins:%s (K compares only error/no error)' % case['malformed'])
+    if case.get('plugins'):
+        st.count('plugins:config-%s,backend-seen=%s' % (case['ini_mode'], impl.get('backend_seen')))
     if case.get('api'):
         st.count('api.run_tasks:pos_arg=%s,pos_given=%s,task_opts=%d,section-too=%s'
                  % (bool(case.get('pos_arg')), bool(case.get('api_pos_given')), min(3, len(case['task_opts'])), bool(case['ini'])))
@@ -872,8 +948,12 @@ def with_base(case, base):
     """corpus cases of the main path are written without the base options"""
     if case['path'] in ('main', 'premain') and case['n_base'] == 0:
         case = dict(case)
-        case['spec'] = base + case['spec']
+        case['spec'] = [dict(o) for o in base] + case['spec']
         case['n_base'] = len(base)
+        if case.get('plugins'):
+            for o in case['spec'][:case['n_base']]:
+                if o['name'] == 'backend' and 'vmem' not in o['choices']:
+                    o['choices'] = list(o['choices']) + ['vmem']
     return case
 
 
@@ -936,6 +1016,9 @@ def replay(ctx, data):
     if c['path'] == 'runtask':
         print('task t  : pos_arg=%s, per-task config section present: %s (%s); command line: doit t %s'
               % (bool(c.get('pos_arg')), bool(c['ini'] or c.get('cfg_not_none')), c.get('ini_mode'), ' '.join(c['argv'])))
+    if c.get('plugins'):
+        print('plugins : [COMMAND] vcmd = optlib:PLUGIN_VCMD, [BACKEND] vmem = optlib:PLUGIN_BACKEND in the same config source '
+              '(%s); backend instantiated: %s' % (c['ini_mode'], impl.get('backend_seen')))
     if c.get('ini_mode') == 'mixed':
         print('config  : extra_config (same dict object for every DoitMain of the case) = the sections above; files of '
               'this invocation: %s' % json.dumps(c.get('files')))
